@@ -101,6 +101,7 @@ const (
 	REarlyEOF
 	RError
 	RDataWithError // deliver the bytes asked for AND the injected error in the same call
+	RStall         // (0, nil): nothing happened, call again - legal for an io.Reader, and neither a failure nor an end
 )
 
 // ChoiceReader is an io.Reader whose answers are chosen by an Env.
@@ -112,6 +113,9 @@ type ChoiceReader struct {
 	InjectedError bool
 	EarlyEOFAt    int // -1 if none
 	Done          bool
+	AllowStall    bool // offer the answer (0, nil) as well
+	Stalls        int  // number of (0, nil) answers given so far (at most 2 per stream, never two in a row)
+	lastStall     bool
 }
 
 // NewChoiceReader builds a reader over data.
@@ -144,7 +148,15 @@ func (r *ChoiceReader) Read(p []byte) (int, error) {
 		}
 		opts = append(opts, REarlyEOF, RError, RDataWithError)
 	}
+	if r.AllowStall && !r.lastStall && r.Stalls < 2 {
+		opts = append(opts, RStall)
+	}
 	ans := opts[r.Env.Choose(len(opts))]
+	r.lastStall = ans == RStall
+	if ans == RStall {
+		r.Stalls++
+		return 0, nil
+	}
 	n := rem
 	if n > len(p) {
 		n = len(p)
@@ -234,6 +246,29 @@ type PosReader struct {
 func (r *PosReader) Read(p []byte) (int, error) {
 	if len(p) == 0 {
 		return 0, nil
+	}
+	if r.Mode == "stall" {
+		// one Read issued when exactly FailAt bytes have been delivered answers (0, nil); the stream is complete
+		if r.Pos == r.FailAt && !r.Hit {
+			r.Hit = true
+			return 0, nil
+		}
+		if r.Pos >= len(r.Data) {
+			return 0, io.EOF
+		}
+		n := len(p)
+		if r.Chunk > 0 && n > r.Chunk {
+			n = r.Chunk
+		}
+		if !r.Hit && r.Pos < r.FailAt && r.Pos+n > r.FailAt {
+			n = r.FailAt - r.Pos
+		}
+		if n > len(r.Data)-r.Pos {
+			n = len(r.Data) - r.Pos
+		}
+		copy(p, r.Data[r.Pos:r.Pos+n])
+		r.Pos += n
+		return n, nil
 	}
 	limit := len(r.Data)
 	if r.FailAt >= 0 && r.FailAt < limit {
